@@ -1006,8 +1006,9 @@ theorem panelDfs_column_eq_recursive_partial {e : Env} {ps : St} (hC : ColOK e p
       (∀ t, 0 ≤ t → t < e.jcol → m1 e ps' t =
         if t ∈ (post.reverse.map Int.ofNat).filter (fun t => decide (m1 e ps t < e.jcol)) then e.jj else m1 e ps t) ∧
       (slice ps'.segrep 0 ps'.nseg).Nodup ∧
-      (∀ t ∈ slice ps'.segrep 0 ps'.nseg, 0 ≤ t ∧ t < e.jcol ∧ e.jcol ≤ m1 e ps' t) :=
-  panelCol_eq_dfsList hC hfuel hrows
+      (∀ t ∈ slice ps'.segrep 0 ps'.nseg, 0 ≤ t ∧ t < e.jcol ∧ e.jcol ≤ m1 e ps' t) := by
+  obtain ⟨ps', post, h1, h2, h3, h4, h5, h6, h7, h8, h9, _⟩ := panelCol_eq_dfsList hC hfuel hrows
+  exact ⟨ps', post, h1, h2, h3, h4, h5, h6, h7, h8, h9⟩
 
 /-! example: the factored state of `Slu.ColDfs.exIn` (8 rows, columns 0..5 factored), panel of the columns 6, 7:
 A(:,6) has rows 0, 7 and A(:,7) has rows 3, 1, 6.  Column 6 reaches 0 → 2 → 5, 4 (`segrep` 5 2 4 0); column 7
